@@ -10,7 +10,7 @@ from . import runner
 
 
 def _fails(script, oid, session, prop):
-    res = runner.isolated(script, session, prop, timeout=60)
+    res = runner.isolated(script, session, prop, timeout=25 if oid in ("hang", "crash") else 60)
     if res["status"] == "harness-exception":
         return False
     return any(f["oracle"] == oid for f in res["failures"])
